@@ -24,6 +24,7 @@ ASSUME = ["index functions: obligations over ALL strings (z3 string theory): kno
           "argument orders: formal parameter list equals the permutation named by the order string and every output slot term is identical to the default order's term"]
 
 EXTRA = [
+    "parameters(lambda=0.5, long=2.0, int=1.5)\nstates(def=1.0, short=2.0)\nclass = lambda*def + long\nddef_dt = -class + int\ndshort_dt = def - short\n",
     "parameters(zeta=1.0, alpha=2.0, mid=3.0)\nstates(zz=1.0, aa=2.0, mm=3.0)\nu = aa*alpha\ndzz_dt = -zz\ndmm_dt = u - mm\ndaa_dt = mm*zeta - aa*mid\n",
     "parameters(b=2.0, a=1.0)\nstates(y=2.0, x=1.0)\ndx_dt = -y*a\ndy_dt = x*b\n",
     "parameters(p=0.5)\nstates(c=3.0, b=2.0, a=1.0)\ni2 = a + b\ni1 = i2*c\ndc_dt = -i1\ndb_dt = i2 - b*p\nda_dt = -a\n",
